@@ -75,3 +75,11 @@ Theorem C18_root_version_wins : forall fuel fs root f vs ver out,
   process_def fuel fs [] [] root = Some (vs, ver, out) -> ver = xfl_version f.
 Proof. exact root_version_wins. Qed.
 Print Assumptions C18_root_version_wins.
+
+(* ---- tie by translation (gen/SrcConversion.v regenerated from pkg/conversion on every run) ----
+   dialectTypeToGo of the source is the model's type_to_go, and composed with the run-time table
+   fieldTypeFromGo / fieldTypeString it is the identity on the eleven wire types *)
+From GM Require Import SrcConversion SrcMessage SrcMsgTables SrcGenTables.
+Theorem C18_source_type_table : gen_tables_ok = true.
+Proof. exact src_generator_type_table. Qed.
+Print Assumptions C18_source_type_table.
